@@ -299,6 +299,40 @@ def build_delitem(S):
         # tables untouched
         for fld in ('atom_type_elements', 'atom_type_masses', 'atom_type_labels', 'pair_coeffs') + tuple(k + '_type_coeffs' for k, _ in AM.KINDS):
             I2.oblige("%s/frame/%s-unchanged" % (tag, fld), z3.BoolVal(new[fld] is old[fld]), 'frame')
+        # corollary used by callers (self-replacement deletes nothing): an empty index list leaves every array as it was.
+        # Stepping stones: with no index to delete every row keeps its place (rank form), first for atoms, then for the rows of each term kind.
+        e = z3.Int('qe')
+        empty = (L == 0)
+        lemA = z3.Implies(empty, z3.ForAll([e], z3.Implies(z3.And(e >= 0, e < N), z3.And(dstI(e) == e, srcI(e) == e)), patterns=[dstI(e)]))
+        I2.oblige("%s/lemma/empty-list/every-atom-keeps-its-place" % tag, lemA, 'lemma')
+        I2.assume(z3.Implies(empty, z3.ForAll([e], z3.Implies(z3.And(e >= 0, e < N), z3.And(dstI(e) == e, srcI(e) == e)), patterns=[srcI(e)])))
+        I2.assume(z3.Implies(empty, z3.ForAll([e], z3.Implies(z3.And(e >= 0, e < N), z3.And(dstI(e) == e, srcI(e) == e)), patterns=[dstI(e)])))
+
+        def unchanged(fld):
+            nf, of = new[fld], old[fld]
+            if nf is of:
+                return z3.BoolVal(True)
+            return z3.And(nf.length == of.length, z3.ForAll([e], z3.Implies(z3.And(e >= 0, e < of.length), z3.And(*[z3.Select(cn, e) == z3.Select(co, e) for cn, co in zip(nf.cols, of.cols)]))))
+        for fld in ('positions', 'atom_types', 'charges', 'groups', 'extra_atom_fields'):
+            I2.oblige("%s/post/empty-index-list-changes-nothing/%s" % (tag, fld), z3.Implies(empty, unchanged(fld)), 'post')
+        for k, w in AM.KINDS:
+            pl = AM.PLURAL[k]
+            if new[pl] is old[pl]:
+                continue
+            c = calls.get(old[pl].name)
+            mD, srcD, dstD = c['maps']
+            D1 = c['D1']
+            assume_rank_form(I2, old[pl].length, D1)         # D1 is strictly increasing (contract of the helper), hence distinct
+            memD = mem_of(I2, D1)
+            lemB = z3.Implies(empty, D1.length == 0)
+            I2.oblige("%s/lemma/empty-list/%s/no-row-is-removed" % (tag, pl), z3.Implies(z3.And(empty, D1.length > 0), z3.BoolVal(False)) if False else lemB, 'lemma')
+            I2.assume(lemB)
+            R_ = old[pl].length
+            lemC = z3.Implies(empty, z3.ForAll([e], z3.Implies(z3.And(e >= 0, e < R_), z3.And(dstD(e) == e, srcD(e) == e)), patterns=[dstD(e)]))
+            I2.oblige("%s/lemma/empty-list/%s/every-row-keeps-its-place" % (tag, pl), lemC, 'lemma')
+            I2.assume(z3.Implies(empty, z3.ForAll([e], z3.Implies(z3.And(e >= 0, e < R_), z3.And(dstD(e) == e, srcD(e) == e)), patterns=[srcD(e)])))
+            for fld in (pl, k + '_types', 'extra_%s_fields' % k):
+                I2.oblige("%s/post/empty-index-list-changes-nothing/%s" % (tag, fld), z3.Implies(empty, unchanged(fld)), 'post')
         return None
 
     paths2 = I2.explore(thunk2, max_paths=64)
